@@ -55,6 +55,22 @@ def handle (line : String) : String :=
     match parseSplits sp, parseHex h with
     | some splits, some stream => showMux splits stream
     | _, _ => "bad-op"
+  | "alias" :: who :: bh :: specs =>
+    -- the model has no mutable memory: a write call cannot change the caller's buffer
+    let parseOL (x : String) : Option (Nat × Nat) :=
+      match x.splitOn ":" with
+      | [a, b] => do let o ← a.toNat?; let n ← b.toNat?; some (o, n)
+      | _ => none
+    match parseHex bh, specs.mapM parseOL with
+    | some buf, some ols =>
+      let ps := ols.map fun (o, n) => (buf.drop o).take n
+      let sent := ",".intercalate (ps.map toHex)
+      if who = "slip" then
+        s!"clobber=none sent={sent} " ++ showSlip [3] (ps.flatMap encode)
+      else match parseHex who with
+        | some [ft] => s!"clobber=none sent={sent} " ++ showMux [3] (ps.flatMap fun p => muxWrite ft p)
+        | _ => "bad-op"
+    | _, _ => "bad-op"
   | ["fcs", h] =>
     match parseHex h with
     | some d =>
